@@ -395,11 +395,10 @@ class Interp:
                     val = to_pw(src)
 
                     def newfn(ix, old=old, tgt=tgt, val=val):
-                        if all(is_const_pw(a) and is_const_pw(b) for a, b in zip(ix, tgt)):
-                            if all(a == b for a, b in zip(ix, tgt)):
-                                return val
-                            return old(ix)
-                        return Overridden(old, tgt, val, ix)
+                        # a symbolic index denotes a generic cell, which is not the overridden one
+                        if all(to_pw(a) == b for a, b in zip(ix, tgt)):
+                            return val
+                        return old(ix)
                     arr.alloc.valfn = newfn
                     arr.alloc.overrides = getattr(arr.alloc, "overrides", []) + [(tgt, val)]
                 return
@@ -412,6 +411,13 @@ class Interp:
         """keep the closed form of an array current across numpy-level whole-array assignments"""
         from .extlib import arr_valfn, broadcast_shapes
         al = dst.alloc
+        al.cver = getattr(al, "cver", 0) + 1
+        if not hasattr(al, "content_hist"):
+            al.content_hist = []
+        if dst.is_full() and isinstance(src, Arr) and aug is None:
+            al.content_hist.append((al.cver, src, getattr(src.alloc, "cver", 0) if src.alloc.id != al.id else al.cver - 1))
+        else:
+            al.content_hist.append((al.cver, None, None))
         if not dst.is_full():
             if al.valfn is not None:
                 al.valfn = None
